@@ -5,3 +5,7 @@
 pub mod conv;
 #[cfg(kani)]
 mod c14_float;
+#[cfg(kani)]
+mod c10_parse;
+#[cfg(kani)]
+mod c11_radix_out;
